@@ -108,6 +108,64 @@ Definition cls_ambiguous (base : graph) (layers : list (list frag_entry)) : bool
                     end) base
   end.
 
+(** the same one level down (three-level strings  base.{coarse fragments}.{fragments}): the graph the second layer is
+    resolved on is the molecule of the first layer -- one node (base key, fragment node key) per node of every base
+    node's coarse fragment, named by `atomname`; its edges are the edges inside the coarse fragments and, for every
+    base edge, an edge between two nodes of the two fragments that carry compatible descriptors.  WHICH of those
+    pairs the resolver bonds is not modelled: every compatible pair is taken (an over-approximation of the class:
+    it excuses at most more).  On that graph the two tests of [cls_ambiguous] are made against the second layer. *)
+Definition atom_name (a : attrs) : option pystr := match aget (S "atomname") a with Some (VStr s) => Some s | _ => None end.
+Definition entry_graph (name : pystr) (l : list frag_entry) : graph :=
+  match find (fun e => let '(nm, _, _, _) := e in str_eqb nm name) l with Some (_, g, _, _) => g | None => [] end.
+Definition zz_eqb (a b : Z * Z) : bool := Z.eqb (fst a) (fst b) && Z.eqb (snd a) (snd b).
+Definition mid_nodes (base : graph) (l1 : list frag_entry) : list (Z * Z * pystr) :=
+  flat_map (fun b => match node_name base (nk b) with
+                     | Some X => flat_map (fun n => match atom_name (na n) with Some s => [((nk b, nk n), s)] | None => [] end)
+                                          (entry_graph X l1)
+                     | None => [] end) base.
+Definition mid_edges (base : graph) (l1 : list frag_entry) : list ((Z * Z) * (Z * Z) * Z) :=
+  flat_map (fun b => match node_name base (nk b) with
+                     | Some X => map (fun e => let '(u, v, d) := e in
+                                        ((nk b, u), (nk b, v), match int_order d with Some o => o | None => 1 end))
+                                     (edges_data (entry_graph X l1))
+                     | None => [] end) base
+  ++ flat_map (fun e => let '(k1, k2, _) := e in
+                 match node_name base k1, node_name base k2 with
+                 | Some X1, Some X2 =>
+                     flat_map (fun n1 =>
+                       flat_map (fun n2 =>
+                         if existsb (fun d1 => existsb (compat_legacy d1) (node_bonding (na n2))) (node_bonding (na n1))
+                         then [((k1, nk n1), (k2, nk n2), 1)] else [])
+                         (entry_graph X2 l1)) (entry_graph X1 l1)
+                 | _, _ => [] end) (edges_data base).
+Definition mid_name (nodes : list (Z * Z * pystr)) (k : Z * Z) : option pystr :=
+  match find (fun x => zz_eqb (fst x) k) nodes with Some x => Some (snd x) | None => None end.
+Definition cls_ambiguous2 (base : graph) (layers : list (list frag_entry)) : bool :=
+  match layers with
+  | l1 :: l2 :: _ =>
+      let nodes := mid_nodes base l1 in
+      let edges := mid_edges base l1 in
+      existsb (fun e => let '(u, v, o) := e in
+                 match mid_name nodes u, mid_name nodes v with
+                 | Some nu, Some nv =>
+                     let du := entry_descriptors nu l2 in let dv := entry_descriptors nv l2 in
+                     let pairs := length (filter (fun p => compat_legacy (fst p) (snd p)) (list_prod du dv)) in
+                     let cu := length (filter (fun x => existsb (compat_legacy x) dv) du) in
+                     let cv := length (filter (fun y => existsb (fun x => compat_legacy x y) du) dv) in
+                     (Nat.min (Z.to_nat o) (Nat.min cu cv) <? pairs)%nat
+                 | _, _ => false
+                 end) edges
+      || existsb (fun x =>
+                    let nbrs := flat_map (fun e => let '(u, v, _) := e in
+                                            (if zz_eqb u (fst x) then [v] else []) ++ (if zz_eqb v (fst x) then [u] else [])) edges in
+                    existsb (fun d =>
+                               (2 <=? length (filter (fun v => match mid_name nodes v with
+                                                               | Some nv => existsb (compat_legacy d) (entry_descriptors nv l2)
+                                                               | None => false end) nbrs))%nat)
+                            (entry_descriptors (snd x) l2)) nodes
+  | _ => false
+  end.
+
 (** ------------------------------------------------------------------ isomorphism by witness *)
 Fixpoint count_str (d : pystr) (l : list pystr) : nat :=
   match l with [] => 0%nat | x :: r => ((if str_eqb d x then 1 else 0) + count_str d r)%nat end.
